@@ -153,6 +153,38 @@ CHECKS: dict[str, tuple[str, str, str, str]] = {
         "Trusted: ast, sa/tab.py, syntactic table of file-system mutators. OS failures of the final write are out of scope.",
         "DESIGN.md §3 C11",
     ),
+    "C07": (
+        "decision tables + field-pipeline agreement (dataclass / extractor / render kwargs / Jinja2-parsed template) + forwarding dataflow",
+        "Decides: the post-render check as a 4-cell table (header rejected iff copyright OR licences read back differ,"
+        " evaluated on the very text that is returned); ReuseInfo's set fields = fields the extractor populates ="
+        " keyword arguments of template.render ⊆ variables of the default template, with equal tag literals on both"
+        " sides; unchanged forwarding of every option along the five-function annotate chain (rename table); the"
+        " .license-target and comment-style decision tables; sanity of the folded style tables (29 classes, 261+64"
+        " map entries). That rendering plus commenting round-trips every value is run-time behaviour and not decided.",
+        "Trusted: ast, sa/tab.py, sa/fold.py, Jinja2's parser (no rendering).",
+        "DESIGN.md §3 C07",
+    ),
+    "C08": (
+        "reassembly decision table (flattened f-strings) + order/dataflow checks on the newline, shebang and BOM plumbing",
+        "Decides the 12-cell reassembly table of place_header against the blank-line policy; that the file is read raw"
+        " (newline=''), line endings are detected before normalisation and the same variable is the newline= of the"
+        " write to the same file; that shebang extraction precedes header creation and feeds `before`; that the three"
+        " text sections are chained slices of one string; that a BOM is split off before processing and written back"
+        " first. Byte-for-byte preservation of arbitrary bodies is run-time string behaviour and not decided.",
+        "Trusted: ast, sa/tab.py.",
+        "DESIGN.md §3 C08",
+    ),
+    "C09": (
+        "data-dependence of the rendered information on both sources (path tabulation) + per-field union table + predicate formulas",
+        "Decides on every path of create_header that what reaches the renderer is the union of the existing header's"
+        " information and the request (copyright lines: the optionally merged union), that an unparseable existing"
+        " header raises instead of being dropped, that ReuseInfo.union covers every set field, copy preserves"
+        " unspecified fields, the helper predicates equal their formulas, every .copy() call names only dataclass"
+        " fields, --skip-existing has no effect, and the post-render check (shared with C07). Monotonicity over"
+        " arbitrary histories of header shapes is not decided.",
+        "Trusted: ast, sa/tab.py.",
+        "DESIGN.md §3 C09",
+    ),
 }
 
 PENDING_REASON = "check not implemented yet (build in progress; see DESIGN.md §7)"
